@@ -1322,7 +1322,9 @@ func (s *Set) IsSubset(other Iterator) (bool, error) {
 }
 
 func (s *Set) Intersection(other Iterator) (Value, error) {
-	intersect := new(Set)
+	// Collect the common elements, then emit them in the
+	// order of s, the left operand, as the spec requires.
+	common := new(Set)
 	var x Value
 	for other.Next(&x) {
 		found, err := s.Has(x)
@@ -1330,10 +1332,16 @@ func (s *Set) Intersection(other Iterator) (Value, error) {
 			return nil, err
 		}
 		if found {
-			err = intersect.Insert(x)
+			err = common.Insert(x)
 			if err != nil {
 				return nil, err
 			}
+		}
+	}
+	intersect := new(Set)
+	for e := s.ht.head; e != nil; e = e.next {
+		if found, _ := common.Has(e.key); found {
+			intersect.Insert(e.key) // can't fail
 		}
 	}
 	return intersect, nil
